@@ -33,6 +33,25 @@ def lpShowPos : Option Pos → String
   | some p => s!"{p.amount}:{p.value}:{p.cum}"
   | none => "closed"
 
+def lpShowPosS : Option Pos → String
+  | some p => s!"{p.amount}:{p.value}:{p.cum}:{p.start}"
+  | none => "closed"
+
+def lpStep (t : String) : Option (Nat × Nat × ChainOp) :=
+  match t.splitOn ":" with
+  | [dt, dcum, op] =>
+    match pNat dt, pNat dcum with
+    | some dt, some dcum =>
+      if dt ≥ 2 ^ 32 || dcum ≥ 2 ^ 128 then none
+      else if op = "c" then some (dt, dcum, .claim)
+      else match op.toList with
+        | 'u' :: rest => match pNat (String.ofList rest) with
+          | some a => if a < 2 ^ 64 then some (dt, dcum, .unstake a) else none
+          | none => none
+        | _ => none
+    | _, _ => none
+  | _ => none
+
 def lpEngine (args : List String) : String :=
   match args with
   | ["apy", start, now, g] =>
@@ -63,6 +82,20 @@ def lpEngine (args : List String) : String :=
           | some o =>
             s!"ok mint={o.minted} xfer={o.transfer} closed={showBool o.fullExit} pos={lpShowPos o.pos} n={if o.fullExit then 2 else 3}"
           | none => "err"
+        else "bad-op"
+      | _, _ => "bad-op"
+    | _, _, _ => "bad-op"
+  | ["chain", ce, min, ctrl, dat, dcum, cumNow, now, amt, val, start, pcum, vault, g, steps] =>
+    match lpParseG g, pNat vault, (steps.splitOn ",").mapM lpStep with
+    | some g, some vault, some steps =>
+      match lpEnv ce min ctrl dat dcum cumNow now g, lpPos amt val start pcum with
+      | some e, some p =>
+        let totDt : Nat := (steps.map (·.1)).foldl (· + ·) 0
+        let totCum : Nat := (steps.map (·.2.1)).foldl (· + ·) 0
+        if vault < 2 ^ 64 && steps.length ≤ 8 && lpFitsI (e.now + Int.ofNat totDt) && e.cumNow + totCum < 2 ^ 128 then
+          let r := runChain ⟨e, some p, vault⟩ steps
+          let shown := r.2.map (fun x => match x with | some m => toString m | none => "e")
+          s!"ok [{";".intercalate shown}] pos={lpShowPosS r.1.pos} vault={r.1.vault}"
         else "bad-op"
       | _, _ => "bad-op"
     | _, _, _ => "bad-op"
